@@ -5,6 +5,7 @@ import json
 import os
 import subprocess
 import sys
+import warnings
 
 import numpy as np
 
@@ -131,6 +132,74 @@ def lda_sequences(run, cols, regs):
                             f"but an independently assembled rater gives {w}",
                             payload={"kind": "lda", "regressor": reg,
                                      "order": order},
+                            theorem="C09_cache_hit_needs_equal_key")
+
+
+def rating_histories(run, cols, regs):
+    """a curve is rated, then its fit state changes WITHOUT a new fit (a
+    setting edited, a rejected fit request, the initial parameters of another
+    model requested) or with one (refit, new preprocessing), then it is rated
+    again with the same arguments: the value must be the standalone rater's
+    for the state the curve is in now (-1 without a successful current fit)"""
+    st = states(cols)
+
+    def edit(i):
+        i.fit_properties["weight_cp"] = 5e-7
+
+    def rejected(i):
+        try:
+            i.fit_model(range_type="no such type")
+        except BaseException:
+            pass
+
+    def other_model(i):
+        i.get_initial_fit_parameters(model_key="hertz_cone")
+
+    def refit(i):
+        i.fit_model(weight_cp=0, range_x=[-2e-6, 2e-6])
+
+    def repre(i):
+        i.apply_preprocessing(["compute_tip_position", "correct_tip_offset"])
+
+    def unsuccessful(i):
+        i.fit_model(range_type="relative cp", range_x=[1e-3, 2e-3])
+    moves = {"setting-edited": edit, "fit-request-rejected": rejected,
+             "initial-parameters-of-another-model": other_model,
+             "refit": refit, "re-preprocessed": repre,
+             "unsuccessful-refit": unsuccessful}
+    for reg in regs:
+        if reg.lower() == "none":
+            continue
+        for mname, mv in moves.items():
+            key = f"rating-history:{reg}:{mname}"
+            run.case({"scenario": "rating-history", "regressor": reg,
+                      "move": mname}, kind="rating-history")
+            try:
+                with warnings.catch_warnings():
+                    warnings.simplefilter("ignore")
+                    i = st["fitted"]()
+                    v0 = i.rate_quality(regressor=reg)
+                    mv(i)
+                    v1 = i.rate_quality(regressor=reg)
+                    w = standalone(i, reg)
+            except BaseException as e:
+                run.failing(SITE, key, f"{mname} with {reg} raised "
+                            f"{type(e).__name__}: {e}",
+                            payload={"kind": "rerun"})
+                continue
+            fp = i.fit_properties
+            ok_fit = bool(fp.get("success", False)) and "hash" in fp
+            why = None
+            if not ok_fit and v1 != -1:
+                why = (f"no successful current fit after '{mname}' but the "
+                       f"rating is {v1} (before the move: {v0})")
+            elif v1 != w and not (np.isnan(v1) and np.isnan(w)):
+                why = (f"after '{mname}' rate_quality returns {v1}, the "
+                       f"standalone rater {w} for the current state (before "
+                       f"the move: {v0})")
+            if why:
+                run.failing(SITE, key, f"{reg}: {why}",
+                            payload={"kind": "rerun"},
                             theorem="C09_cache_hit_needs_equal_key")
 
 
@@ -298,6 +367,9 @@ def check(run):
                              "Decision Tree"] if run.tier == "quick" else
                   ["SVR (linear kernel)", "SVR (RBF kernel)", "Decision Tree",
                    "Extra Trees", "AdaBoost"])
+    rating_histories(run, big, ["Decision Tree", "Extra Trees"]
+                     if run.tier == "quick" else
+                     ["Decision Tree", "Extra Trees", "SVR (linear kernel)"])
     fixed_ids = [k["id"] for k in run.known if k.get("status") == "fixed"
                  and k["id"] == "C09/cache-by-reference"]
     for fid in fixed_ids:
